@@ -61,10 +61,13 @@ def short_field(name):
 
 
 class Path(object):
-    __slots__ = ("cells", "facts", "chars", "events", "visits", "data")
+    """One explored path. `cells` maps root -> {field path -> value}; inner dicts are shared
+    between clones and copied on first write (`owned`)."""
+    __slots__ = ("cells", "owned", "facts", "chars", "events", "visits", "data")
 
     def __init__(self):
         self.cells = {}
+        self.owned = set()
         self.facts = {}
         self.chars = {}
         self.events = []
@@ -74,12 +77,31 @@ class Path(object):
     def clone(self):
         p = Path()
         p.cells = dict(self.cells)
+        self.owned = set()
         p.facts = dict(self.facts)
         p.chars = dict(self.chars)
         p.events = list(self.events)
         p.visits = dict(self.visits)
         p.data = dict(self.data)
         return p
+
+    def inner(self, root, create=False):
+        d = self.cells.get(root)
+        if d is None:
+            if not create:
+                return None
+            d = {}
+            self.cells[root] = d
+            self.owned.add(root)
+            return d
+        if create and root not in self.owned:
+            d = dict(d)
+            self.cells[root] = d
+            self.owned.add(root)
+        return d
+
+    def set_cell(self, root, path, v):
+        self.inner(root, True)[path] = v
 
 
 class Call(object):
@@ -204,36 +226,43 @@ class Engine(object):
         return UNINIT
 
     def read(self, st, root, path):
-        cells = st.cells
-        for k in range(len(path), -1, -1):
-            key = (root, path[:k])
-            if key in cells:
-                v = cells[key]
-                for el in path[k:]:
-                    v = project(v, el)
-                return v
-        n = len(path)
-        ovs = [(p[n:], v) for (r, p), v in cells.items()
-               if r == root and len(p) > n and p[:n] == path]
-        base = self.default(root, path)
-        if ovs:
-            return ("agg", base, tuple(sorted(ovs, key=repr)))
-        return base
+        if isinstance(root, tuple) and root[0] == "pconst":
+            v = root[1]
+            for el in path:
+                v = project(v, el)
+            return v
+        cells = st.cells.get(root)
+        if cells:
+            for k in range(len(path), -1, -1):
+                key = path[:k]
+                if key in cells:
+                    v = cells[key]
+                    for el in path[k:]:
+                        v = project(v, el)
+                    return v
+            n = len(path)
+            ovs = [(p[n:], v) for p, v in cells.items() if len(p) > n and p[:n] == path]
+            if ovs:
+                return ("agg", self.default(root, path), tuple(sorted(ovs, key=repr)))
+        return self.default(root, path)
 
     def write(self, st, root, path, v, site=None, quiet=False):
-        cells = st.cells
+        if isinstance(root, tuple) and root[0] == "pconst":
+            return
+        cells = st.inner(root, True)
         n = len(path)
-        for key in [k for k in cells if k[0] == root and len(k[1]) > n and k[1][:n] == path]:
-            del cells[key]
+        if len(cells) > 0:
+            for key in [k for k in cells if len(k) > n and k[:n] == path]:
+                del cells[key]
         done = False
         for k in range(n - 1, -1, -1):
-            key = (root, path[:k])
+            key = path[:k]
             if key in cells:
                 cells[key] = override(cells[key], path[k:], v)
                 done = True
                 break
         if not done:
-            cells[(root, path)] = v
+            cells[path] = v
         if not quiet and not isinstance(root, int) and root[0] not in ("fr", "promoted"):
             st.events.append(("write", root, path, v, site))
 
@@ -290,23 +319,21 @@ class Engine(object):
 
     def eval_promoted(self, st, idx):
         """Value of promoted constant idx: a reference to an immutable temporary."""
-        root = ("promoted", self.body.get("path"), idx)
-        if (root, ()) not in st.cells:
-            if idx not in self._promoted_cache:
-                pb = self.promoted[idx]
-                sub = Engine({"mir": pb, "promoted": []}, models=self.models)
-                res = sub.run(0, Path())
-                val = ("opaque", "promoted")
-                if len(res) == 1 and res[0][1][0] == "RETURN":
-                    p, end = res[0]
-                    rv = end[1]
-                    if rv[0] == "ref" and (isinstance(rv[1], int) or rv[1][0] == "fr"):
-                        val = sub.read(p, rv[1], rv[2])
-                    else:
-                        val = rv
-                self._promoted_cache[idx] = val
-            st.cells[(root, ())] = self._promoted_cache[idx]
-        return ("ref", root, ())
+        if idx not in self._promoted_cache:
+            pb = self.promoted[idx]
+            sub = Engine({"mir": pb, "promoted": []}, models=self.models)
+            res = sub.run(0, Path())
+            val = ("opaque", "promoted")
+            if len(res) == 1 and res[0][1][0] == "RETURN":
+                p, end = res[0]
+                rv = end[1]
+                if rv[0] == "ref" and (isinstance(rv[1], int) or rv[1][0] == "fr"):
+                    val = sub.read(p, rv[1], rv[2])
+                else:
+                    val = rv
+            self._promoted_cache[idx] = val
+        # an immutable temporary: the value is carried in the reference itself (no store cell)
+        return ("ref", ("pconst", self._promoted_cache[idx]), ())
 
     def rvalue(self, st, rv):
         k = rv["k"]
@@ -595,12 +622,13 @@ class Engine(object):
         res = sub.run(0, st)
         self.steps += sub.steps
         conts = []
+        nloc = len(sub.locals)
+        nblk = len(sub.blocks)
         for q, end in res:
-            for key in [k for k in q.cells if isinstance(k[0], tuple) and k[0][0] == "fr"
-                        and k[0][1] == fid]:
-                del q.cells[key]
-            for key in [k for k in q.visits if k[0] == fid]:
-                del q.visits[key]
+            for l in range(nloc):
+                q.cells.pop(("fr", fid, l), None)
+            for b in range(nblk):
+                q.visits.pop((fid, b), None)
             if end[0] == "RETURN":
                 q.events.append(("leave", body.get("path"), c.site))
                 conts.append((q, end[1]))
